@@ -43,6 +43,8 @@ Params4 == << << PSeq(<<I(5), I(3)>>), PSeq(<<I(3), I(5)>>), PSeq(<<I(4)>>) >>,
                  PMap(<< <<"a", I(1)>> >>) >>,
               << PSeq(<<I(0), I(3)>>), PSeq(<<I(3), I(0)>>), PSeq(<<I(1), I(2), I(3)>>) >> >>
 Stmts3 == SubSeq(Stmts4, 1, 3)
+Stmts2 == << Stmts4[1], Stmts4[3] >>
+Params2 == << Params4[1], Params4[3] >>
 Params3 == SubSeq(Params4, 1, 3)
 Stmts5 == Stmts4 \o << [q |-> S5, swapped |-> FALSE] >>
 Params5 == Params4 \o << << PSeq(<<I(1)>>), PSeq(<<I(0)>>), PSeq(<<>>) >> >>
